@@ -37,7 +37,8 @@ pub fn main() -> ExitCode {
 
     #[cfg(feature = "logging")]
     if let Err(err) = app.global.init_logging() {
-        panic!("Failed to initialize logging: {:?}", err);
+        eprintln!("Error: failed to initialize logging: {:?}", err);
+        return 1.into();
     }
 
     if let Err(err) = app.commands.run() {
